@@ -240,6 +240,7 @@ class C02(runner.Check):
 				if kind == "mono" and op["rs"] < 0:
 					op["rs"] = -op["rs"]        # RandomState rejects negative seeds
 				op["seed_type"] = r.wchoice(["int", "numpy.int64", "numpy.int32"], [5, 1, 1])
+				op["np_bounds"] = r.chance(0.2)
 				op["xkind"] = r.wchoice(["float32", "int8", "float64", "strided", "float16",
 					"bfloat16"], [8, 4, 2, 2, 1, 1])
 				if r.chance(0.35):
@@ -401,6 +402,7 @@ class C02(runner.Check):
 		L = pool[0].shape[-1]
 		log.log("case", case["pool"])
 		seen = {}
+		kept = []
 		perturbed_since = {}
 		nthreads0 = numba.get_num_threads()
 		nb_seed, nb_draw = _numba_rng_fns()
@@ -440,6 +442,9 @@ class C02(runner.Check):
 						rs = op["rs"]
 						if op.get("seed_type", "int") != "int":
 							rs = getattr(numpy, op["seed_type"].split(".")[1])(rs)
+						s_, e_, n_ = s, e, op["n"]
+						if op.get("np_bounds"):
+							s_, e_, n_ = numpy.int64(s), numpy.int64(e), numpy.int64(op["n"])
 						itf = op.get("interfere")
 						if itf:
 							from engines.preempt import run_with_interference
@@ -454,12 +459,12 @@ class C02(runner.Check):
 									torch.manual_seed(k * 31)
 								else:
 									_random.random()
-							box["Y"], npts, fired = run_with_interference(lambda: fn(X, start=s,
-								end=e, n=op["n"], random_state=rs), "tangermeme", itf["points"],
+							box["Y"], npts, fired = run_with_interference(lambda: fn(X, start=s_,
+								end=e_, n=n_, random_state=rs), "tangermeme", itf["points"],
 								interfere)
 							box["fired"] = fired
 						else:
-							box["Y"] = fn(X, start=s, end=e, n=op["n"], random_state=rs)
+							box["Y"] = fn(X, start=s_, end=e_, n=n_, random_state=rs)
 					except BaseException as ex:
 						box["exc"] = ex
 				if op.get("thread"):
@@ -530,9 +535,17 @@ class C02(runner.Check):
 							key="repeat")
 						break
 				seen[key] = yb
+				if len(kept) < 12 and Y.numel() < 200000:
+					kept.append((oi, Y, yb))
 				perturbed_since[key] = False
 				# per-example independence of the seed schedule: example i of a
 				# multi-example call uses seed rs + i
+			for oi_, obj, b in kept:
+				if (str(obj.dtype), tuple(obj.shape),
+						obj.to(torch.float32).numpy().tobytes()) != b:
+					out.violate("earlier_result_mutated", "the tensor returned by op %d was "
+						"changed by a later call in the same session" % oi_, key="mutated")
+					break
 		finally:
 			numba.set_num_threads(nthreads0)
 		out.nontrivial = nontrivial
